@@ -332,9 +332,9 @@ theorem InvG.owned_ids {u : Bool} {P : Params} {h : Heap} {m : Map} (hi : InvG u
   · rw [ho] at hb
     simp only [List.mem_cons, List.not_mem_nil, or_false] at hb
     rcases hb with rfl | rfl | rfl
-    · exact ⟨T.ck.mem_ids, T.ltk⟩
-    · exact ⟨T.cv.mem_ids, T.ltv⟩
-    · exact ⟨T.cs.mem_ids, T.lts⟩
+    · exact ⟨HasCells.mem_ids T.ck, T.ltk⟩
+    · exact ⟨HasCells.mem_ids T.cv, T.ltv⟩
+    · exact ⟨HasCells.mem_ids T.cs, T.lts⟩
   · rw [ho] at hb; cases hb
 
 theorem Inv.owned_ids {P : Params} {h : Heap} {m : Map} (hi : Inv P h m) :
